@@ -312,7 +312,7 @@ func letterCall(l byte, pos int) Call {
 		return op(ops.OpStartPath(7+uint8(pos), 1, 2))
 	case 'd':
 		kinds := []ops.Kind{ops.AbsLineTo, ops.RelHLineTo, ops.AbsCubeTo, ops.RelSmoothQuadTo}
-		k := kinds[pos%len(kinds)]
+		k := kinds[(pos/2)%len(kinds)] // neighbouring positions 2n, 2n+1 repeat the verb (one run), 2n+1, 2n+2 change it
 		args := []float32{3, 4, 5, 6, 7, 8}
 		return op(ops.OpDraw(k, args[:k.NArgs()]...))
 	case 'm':
@@ -445,6 +445,10 @@ func genCall(t *rapid.T, drawing bool) Call {
 			return op(ops.OpDraw(ops.ClosePathEndPath))
 		}
 		k := rapid.SampledFrom(gen.DrawVerbs).Draw(t, "verb")
+		if prevVerb != 0 && rapid.IntRange(0, 2).Draw(t, "again") == 0 {
+			k = prevVerb // the same verb again: one run in the encoding
+		}
+		prevVerb = k
 		if k == ops.AbsArcTo || k == ops.RelArcTo {
 			return op(ops.OpArc(k, exact(t, "rx"), exact(t, "ry"), float32(rapid.IntRange(0, 7).Draw(t, "rot"))/8, rapid.Bool().Draw(t, "la"), rapid.Bool().Draw(t, "sw"), exact(t, "x"), exact(t, "y")))
 		}
@@ -480,11 +484,15 @@ func genCall(t *rapid.T, drawing bool) Call {
 	}
 }
 
+// prevVerb: the drawing verb genCall drew last in the current case.
+var prevVerb ops.Kind
+
 func TestRandomHistories(t *testing.T) {
 	harness.Rapid(t, harness.N(6000, 16*80000), func(t *rapid.T) {
 		n := rapid.IntRange(1, 300).Draw(t, "len")
 		var c Case
 		a := newAutomaton()
+		prevVerb = 0
 		for i := 0; i < n; i++ {
 			call := genCall(t, a.st == stDrawing && a.err == vNone)
 			a.step(i, call)
